@@ -254,6 +254,7 @@ pub fn check_input(data: &[u8], st: &mut Stats) -> Result<(), (String, String)> 
         if disp2.as_bytes() != out_str {
             return Err(("c01:strip_str:display".into(), format!("Display {:?} != iterator {:?}", show(disp2.as_bytes()), show(&out_str))));
         }
+        crate::c03::partly_consumed(data, &out_bytes, Some(&out_str), "c01")?;
         let mut ss = anstream::adapter::StripStr::new();
         let inc: Vec<&str> = ss.strip_next(s).collect();
         let raw: Vec<&[u8]> = inc.iter().map(|p| p.as_bytes()).collect();
